@@ -526,6 +526,43 @@ def check_no_fabricated_elements(ctx, prog, tag):
     return n
 
 
+def check_entries_come_from_the_value(ctx, prog, tag):
+    """T13 (round 12, seed C16-12): what a composite value deserialises to is decided by the entries the *value* has.
+    The names the target type declares (`fields: &'static [&'static str]` of `deserialize_struct` / `struct_variant`,
+    `variants` of `deserialize_enum`) must not decide which entries the visitor is shown: an entry made up for a
+    declared-but-absent field (`get_attr(field).unwrap_or_default()`) reaches serde as a present `undefined`, so
+    `#[serde(default)]` is never applied and the round trip of a type that skips empty fields fails.  In
+    value/deserialize.rs no map / sequence access handed to a visitor is computed from such a parameter (passing the
+    names on to another deserializer method is fine)."""
+    from .c07 import _param_deps
+    n = 0
+    for k, f in sorted(prog.fns.items()):
+        if f.crate != "minijinja" or not f.loc.f.endswith("value/deserialize.rs") or f.kind == "closure":
+            continue
+        names = [i for i in range(1, f.argc + 1) if "[&" in f.locals[i].get("s", "") and "str" in f.locals[i].get("s", "")]
+        if not names:
+            continue
+        n += 1
+        bad = []
+        for c in f.calls():
+            nm = c.name
+            if not any(x in nm for x in ("MapDeserializer", "SeqDeserializer", "MapAccessDeserializer", "SeqAccessDeserializer",
+                                         "::visit_map", "::visit_seq")):
+                continue
+            deps = set()
+            for a in c.args:
+                deps |= _param_deps(f, a, 0, False)
+            if deps & set(names):
+                bad.append(c)
+        inst = k.split(" for ")[-1].rstrip(">") + "::" + k.rsplit("::", 1)[-1] if " for " in k else "::".join(k.split("::")[-2:])
+        ctx.ob("C16.T13.entries-shown-to-the-visitor-come-from-the-value", tag + inst, not bad,
+               "%s builds the entries it shows the visitor from the names the target type declares: a declared field the value "
+               "does not have arrives as a present `undefined` entry (serde's defaults are not applied, the round trip of a "
+               "value with skipped fields fails)" % k.rsplit("::", 1)[-1], f.where(bad[0].bb) if bad else f.loc)
+    return n
+
+
+
 def run(ctx):
     ctx.explain("C16 (tojson HTML-safety clause only): structural filter rule on the closure that post-processes the "
                 "serialised JSON: the only returned safe string is a buffer written char by char, the default arm "
@@ -606,6 +643,9 @@ def run(ctx):
         n12 = check_no_fabricated_elements(ctx, prog, tag)
         if any(g.loc.f.endswith("value/serialize.rs") for g in prog.fns.values()):
             ctx.floor("C16.T12 elements recorded by the composite serializers" + tag, n12, 5)
+        n13 = check_entries_come_from_the_value(ctx, prog, tag)
+        if any(g.loc.f.endswith("value/deserialize.rs") for g in prog.fns.values()):
+            ctx.floor("C16.T13 deserializer methods that are told the declared names" + tag, n13, 2)
         n11, nf11 = check_searched_fields(ctx, prog, tag)
         ctx.count("C16.T11 binary-searched fields" + tag, nf11)
         ctx.count("C16.T11 construction sites of types with a searched field" + tag, n11)
